@@ -123,8 +123,8 @@ pub fn run(ctx: &Ctx) {
     }
     // ---- predicate and contract size limits
     let pred = |n: usize, e: usize| Predicate { nodes: vec![Node { edge_start: u16::MAX, program_address: ca(0) }; n], edges: vec![0; e] };
-    for n in [0usize, 999, 1000, 1001] {
-        for e in [0usize, 999, 1000, 1001] {
+    for n in [0usize, 999, 1000, 1001, 65535, 65536, 70000] {
+        for e in [0usize, 999, 1000, 1001, 65535, 65536, 65537, 131072] {
             let id = format!("validate/predicate/{n}/{e}");
             if !ctx.want(&id) {
                 continue;
